@@ -554,6 +554,35 @@ func (g *opGen) drawOp(t *rapid.T, u *storeUnderTest) sop {
 			return sop{Kind: "addw", Index: g.index(t), W: 0}
 		}
 		return sop{Kind: "burst", Burst: b}
+	case "widen":
+		// values widening progressively on both sides of a centre: c, c-1, c+1, c-2, c+2, ... (in-place extension of
+		// dense arrays until they are exactly full, then one step beyond)
+		j := rapid.IntRange(4, 90).Draw(t, "widenj")
+		c := g.index(t)
+		if c-j-1 < g.base-g.span {
+			c = g.base - g.span + j + 1
+		}
+		if c+j+1 > g.base+g.span {
+			c = g.base + g.span - j - 1
+		}
+		if 2*j+3 > 2*g.span || !g.bud.Fits(total+float64(2*j+3)) {
+			return sop{Kind: "addw", Index: g.index(t), W: 0}
+		}
+		out := []int{c}
+		for d := 1; d <= j; d++ {
+			if rapid.Bool().Draw(t, "widenlowfirst") {
+				out = append(out, c-d, c+d)
+			} else {
+				out = append(out, c+d, c-d)
+			}
+		}
+		switch rapid.IntRange(0, 2).Draw(t, "widenend") {
+		case 0:
+			out = append(out, c-j-1)
+		case 1:
+			out = append(out, c+j+1)
+		}
+		return sop{Kind: "burst", Burst: out}
 	case "bigburst":
 		// large scale: hundreds to thousands of unit adds over a window of up to tens of thousands of indexes
 		// (arrays grown and shifted several times, many pages and compaction cycles, long encodings)
